@@ -165,7 +165,7 @@ func apiTypes(b []byte) []api.ValueType {
 // ---------------------------------------------------------------- running one case
 
 type runSpec struct {
-	Engine  string // "compiler" | "interpreter"
+	Engine string // "compiler" | "interpreter"
 	// "once": compiled once with the factory under test.
 	// "twice": the same bytes were compiled before, in the same runtime, with another factory
 	//          listening to the same set; "other": ... listening to the complementary set;
